@@ -30,11 +30,16 @@ pub fn entry() -> crate::Entry {
 }
 
 const PREFIX: &str = "mk_";
-const MARKERS: [&str; 6] = ["mk_ALPHA", "mk_BETA", "mk_GAMMA", "mk_DELTA", "mk_EPSILON", "mk_ZETA"];
+const MARKERS: [&str; 8] = ["mk_ALPHA", "mk_BETA", "mk_GAMMA", "mk_DELTA", "mk_EPSILON", "mk_ZETA", "2024", "2024"];
 /// marker 4 is written as a rich text of two runs
 const RICH: u8 = 4;
 /// this marker reaches its cell as the cached text of a formula (written as a t="str" cell, never a shared string)
 const FTEXT: u8 = 5;
+/// the text "2024" stored as TEXT (set_value_string) ...
+const NUMTEXT: u8 = 6;
+/// ... and the same characters through the auto-typing setter set_value: the cell then holds the NUMBER 2024, no text at
+/// all - an overwrite that removes a string from the workbook although the characters stay the same
+const NUMVAL: u8 = 7;
 const RICH_RUNS: [&str; 2] = ["mk_EPS", "ILON"];
 const SHEET1: &str = "Sheet1";
 const SHEET2: &str = "S2";
@@ -124,7 +129,7 @@ struct HM {
     /// identity of "objects related by clone() without a reload in between" (labels only)
     family: u8,
     /// per marker: how it last left this handle's model (labels only)
-    lost: [u8; 5],
+    lost: [u8; 8],
     /// markers this object itself has saved (labels only)
     self_saved: u8,
     /// sheet (Sheet1, S2) is still raw after a lazy reload (not yet deserialized): its cells cannot be read
@@ -146,20 +151,24 @@ impl HM {
         let mut a = BTreeMap::new();
         for (i, c) in self.s1.iter().enumerate() {
             if let Some(c) = c {
-                a.insert((1u32, i as u32 + 1), MARKERS[*c as usize].to_string());
+                if *c != NUMVAL {
+                    a.insert((1u32, i as u32 + 1), MARKERS[*c as usize].to_string());
+                }
             }
         }
         let mut v = vec![(SHEET1.to_string(), a)];
         if let Some(c) = self.s2 {
             let mut b = BTreeMap::new();
-            b.insert((1u32, 1u32), MARKERS[c as usize].to_string());
+            if c != NUMVAL {
+                b.insert((1u32, 1u32), MARKERS[c as usize].to_string());
+            }
             v.push((SHEET2.to_string(), b));
         }
         v
     }
     fn note_change(&mut self, before: u8, origin: u8) {
         let after = self.mask();
-        for x in 0..5u8 {
+        for x in 0..8u8 {
             let b = 1 << x;
             if before & b != 0 && after & b == 0 {
                 self.lost[x as usize] = origin;
@@ -185,7 +194,7 @@ struct St {
 }
 impl St {
     fn root() -> St {
-        St { path: vec![], hs: vec![HM { s1: [None, None], s2: None, family: 0, lost: [0; 5], self_saved: 0, raw: [false, false] }], fam_saved: vec![0], fam_loaded: vec![0], ever: 0, kinds: 0 }
+        St { path: vec![], hs: vec![HM { s1: [None, None], s2: None, family: 0, lost: [0; 8], self_saved: 0, raw: [false, false] }], fam_saved: vec![0], fam_loaded: vec![0], ever: 0, kinds: 0 }
     }
     fn tags(&self) -> Vec<&'static str> {
         KIND_NAMES.iter().filter(|(b, _)| self.kinds & b != 0).map(|(_, n)| *n).collect()
@@ -379,6 +388,8 @@ fn set_text(book: &mut Spreadsheet, sheet: usize, row: u32, m: u8) {
     } else if m == FTEXT {
         cell.set_formula("B9&\"\"");
         cell.set_formula_result_default(MARKERS[m as usize]);
+    } else if m == NUMVAL {
+        cell.set_value(MARKERS[m as usize]);
     } else {
         cell.set_value_string(MARKERS[m as usize]);
     }
@@ -926,6 +937,8 @@ fn alpha(tier: Tier, id: &str) -> Option<Alpha> {
         ("tree", Tier::Thorough) => Some(Alpha { d: 6, markers: &[0, 1, 2, 3], sheet_markers: [0, 3] }),
         ("rich", Tier::Quick) => Some(Alpha { d: 4, markers: &[0, RICH], sheet_markers: [0, RICH] }),
         ("rich", Tier::Thorough) => Some(Alpha { d: 6, markers: &[0, RICH], sheet_markers: [0, RICH] }),
+        ("retyped", Tier::Quick) => Some(Alpha { d: 4, markers: &[0, NUMTEXT, NUMVAL], sheet_markers: [0, NUMTEXT] }),
+        ("retyped", Tier::Thorough) => Some(Alpha { d: 5, markers: &[0, NUMTEXT, NUMVAL], sheet_markers: [0, NUMTEXT] }),
         ("formula-text", Tier::Quick) => Some(Alpha { d: 4, markers: &[0, FTEXT], sheet_markers: [0, FTEXT] }),
         ("formula-text", Tier::Thorough) => Some(Alpha { d: 5, markers: &[0, FTEXT], sheet_markers: [0, FTEXT] }),
         _ => None,
@@ -961,12 +974,13 @@ fn run(ctx: &Ctx) -> i32 {
     let tree = Tree::new(a);
     let rich = Tree::new(ar);
     let ftext = Tree::new(alpha(ctx.tier, "formula-text").unwrap());
+    let retyped = Tree::new(alpha(ctx.tier, "retyped").unwrap());
     let n_prefix = tree.prefixes.len();
     let n_prefix_rich = rich.prefixes.len();
     run_e1(
         ctx,
         E1Spec {
-            spaces: vec![("tree", Box::new(tree)), ("rich", Box::new(rich)), ("formula-text", Box::new(ftext))],
+            spaces: vec![("tree", Box::new(tree)), ("rich", Box::new(rich)), ("formula-text", Box::new(ftext)), ("retyped", Box::new(retyped))],
             cfg: PoolCfg { chunk: 1, case_timeout: std::time::Duration::from_secs(60), ..Default::default() },
             level: "model_checking",
             rule: format!(
@@ -977,6 +991,7 @@ fn run(ctx: &Ctx) -> i32 {
                 "markers": a.markers.iter().map(|m| MARKERS[*m as usize]).collect::<Vec<_>>(),
                 "markers_rich_space": ar.markers.iter().map(|m| MARKERS[*m as usize]).collect::<Vec<_>>(),
                 "markers_formula_text_space": ["mk_ALPHA", "mk_ZETA (cached text of a formula)"],
+                "markers_retyped_space": ["mk_ALPHA", "2024 as text (set_value_string)", "2024 through set_value (becomes the number: no text left)"],
                 "cells": ["Sheet1!A1", "Sheet1!A2", "S2!A1"],
                 "operations": ["set_text(h, A1|A2, marker)", "remove_cell(h, A1|A2)", "remove_row(h, 1|2)", "add_sheet_with_text(h, S2, marker in sheet_markers)", "remove_sheet(h, S2)", "clone(h)", "save(h)", "reload(h) = read_reader(save(h), eager)", "reload_lazy(h) = read_reader(save(h), lazy: sheets stay raw until touched and are written back verbatim)"],
                 "sheet_markers": a.sheet_markers.iter().map(|m| MARKERS[*m as usize]).collect::<Vec<_>>(),
